@@ -313,7 +313,9 @@ def run(ck, ix, tier):
     blocks_loops = [l for l in walk_local(f.node) if isinstance(l, ast.For) and origin(l.iter, f.node) == BLOCKS]
     ck.floor("G-ERR", len(blocks_loops), 1, "loop over parsed_project.iter_blocks() in iter_parsed_project")
     for_nodes = [n.id for n in cfg.nodes if n.kind == "for"]
-    is_syntax_error = lambda a_: isinstance(a_, ast.Call) and shape.match("isinstance(_X, common.DefinitionSyntaxError)", a_) is not None and is_stmt(a_.args[0])
+    def is_syntax_error(a_):
+        a_ = shape.unalias(a_, f.node)            # a flag holding the test is looked through
+        return isinstance(a_, ast.Call) and shape.match("isinstance(_X, common.DefinitionSyntaxError)", a_) is not None and is_stmt(a_.args[0])
     t = shape.guard_edges(cfg, is_syntax_error, want=True)
     ck.check(bool(t) and all(edge_leads_only_to_raise(cfg, x, lab, also_forbid=for_nodes) is None for (x, lab) in t), "G-ERR", "iter_parsed_project|syntax-error-statements-raised", f.loc(),
              "a syntax-error statement is raised", "a syntax-error statement in the parsed project is skipped instead of raised (ill-formed lines silently ignored)")
